@@ -63,7 +63,7 @@ func registry() map[string]*propSpec {
 			Real: realAll, Stub: append([]string{"user marshal methods (scripted peers)"}, stubIO...)},
 		"C05": {Scenario: "dec", Make: func() scen.Scenario {
 			return &scen.Multi{Parts: []scen.Part{{W: 3, S: &scen.Dec{Mode: "c05"}}, {W: 1, S: &scen.DecArshal{Mode: "c05"}}}}
-		}, QuickRuns: 240000, ThorRuns: 16000000,
+		}, Chunk: 100000, QuickRuns: 240000, ThorRuns: 16000000,
 			Rule: "each run = 1-3 episodes on one Decoder (Reset between): generated/mutated JSON stream x option set x program over ReadToken/ReadValue/SkipValue/PeekKind x read schedule (1-byte, cuts, random sizes, empty reads, data+EOF, bufio, bytes.Buffer) x transient read faults x optional hand-off; compared call by call with the same program on the whole slice. distinct = distinct hash of (reader kind, buffer-capacity class, cut positions by lexeme class, fault counts, op 3-grams, outcome); non-trivial = a short/empty/faulty read, Reset or hand-off landed inside the run.",
 			Real: realAll, Stub: stubIO},
 		"C07": {Scenario: "enc+arshal", Make: func() scen.Scenario {
